@@ -6,7 +6,7 @@ From Centro Require Import Model.MaskFlow.
 Import ListNotations.
 
 (* library symbols (index: name) *)
-(* 0: copy; 1: all; 2: not; 3: take; 4: rank_order.translation; 5: gather; 6: _filter.median_filter; 7: scatter; 8: rank_order.ranks; 9: needs_ranking; 10: ascontiguousarray; 11: one_pixel_per_component(edt,label,rank_order,maximum_position); 12: has_greater_neighbour; 13: any; 14: UNTRANSLATABLE; 15: crop(iradius:-iradius,iradius:-iradius); 16: grey_erosion; 17: setslice(iradius:-iradius,iradius:-iradius); 18: grey_dilation; 19: sub; 20: max_axis0; 21: grey_dilation@angle0; 22: grey_erosion@angle0; 23: grey_dilation@angle1; 24: grey_erosion@angle1; 25: grey_dilation@angle2; 26: grey_erosion@angle2; 27: min_axis0; 28: sqrt; 29: add; 30: pow; 31: abs; 32: convolve3x3; 33: roberts_magnitude; 34: shift(+1,+1); 35: shift(-1,+1); 36: canny_gradient_nms_hysteresis; 37: div; 38: function; 39: astype; 40: convolve; 41: mult; 42: gaussian_filter; 43: pillbox_kernel; 44: array; 45: size_is_0; 46: min; 47: eq; 48: max; 49: polynomial_image_clipped; 50: lstsq; 51: gt0; 52: sum_of_shifts; 53: len_is_0; 54: convex_hull_transform_core; 55: rescale; 56: table_lookup; 57: index_set; 58: spur_index_lookup_loop; 59: prepare_for_index_lookup; 60: thin_index_lookup_loop; 61: skeletonize_core(edt,table_lookup,lexsort,skeletonize_loop) *)
+(* 0: copy; 1: all; 2: not; 3: take; 4: rank_order.translation; 5: gather; 6: _filter.median_filter; 7: scatter; 8: rank_order.ranks; 9: needs_ranking; 10: ascontiguousarray; 11: one_pixel_per_component(edt,label,rank_order,maximum_position); 12: has_greater_neighbour; 13: any; 14: crop(iradius:-iradius,iradius:-iradius); 15: grey_erosion; 16: setslice(iradius:-iradius,iradius:-iradius); 17: grey_dilation; 18: sub; 19: max_axis0; 20: grey_dilation@angle0; 21: grey_erosion@angle0; 22: grey_dilation@angle1; 23: grey_erosion@angle1; 24: grey_dilation@angle2; 25: grey_erosion@angle2; 26: min_axis0; 27: sqrt; 28: add; 29: pow; 30: abs; 31: convolve3x3; 32: roberts_magnitude; 33: shift(+1,+1); 34: shift(-1,+1); 35: canny_gradient_nms_hysteresis; 36: div; 37: function; 38: astype; 39: convolve; 40: mult; 41: gaussian_filter; 42: pillbox_kernel; 43: array; 44: size_is_0; 45: min; 46: eq; 47: max; 48: polynomial_image_clipped; 49: lstsq; 50: gt0; 51: sum_of_shifts; 52: len_is_0; 53: convex_hull_transform_core; 54: rescale; 55: table_lookup; 56: index_set; 57: spur_index_lookup_loop; 58: prepare_for_index_lookup; 59: thin_index_lookup_loop; 60: skeletonize_core(edt,table_lookup,lexsort,skeletonize_loop) *)
 (* constants (index: name) *)
 (* 0: zeros_uint8; 1: ones; 2: 1; 3: zeros; 4: product(shape)==0; 5: x,y,x2,y2,xy,o; 6: True *)
 
@@ -22,147 +22,147 @@ Definition prog_regional_maximum_unmasked_ties : expr :=
 Example regional_maximum_unmasked_ties_rejected : accepts prog_regional_maximum_unmasked_ties = false.
 Proof. vm_compute. reflexivity. Qed.
 
-(* median_filter:  Glob UNTRANSLATABLE [Img] *)
+(* median_filter:  Select (Pw copy [Img]) (Glob all [Pw not [MaskE]]) (Select (Glob take [Glob rank_order.translation [Glob gather [Select (Img) (MaskE) (FalseC); MaskE]]; Glob _filter.median_filter [Select (Glob scatter [Select (Glob rank_order.ranks [Glob gather [Select (Img) (MaskE) (FalseC); MaskE]]) (Glob needs_ranking [Glob gather [Select (Img) (MaskE) (FalseC); MaskE]]) (Glob gather [Select (Img) (MaskE) (FalseC); MaskE]); MaskE]) (MaskE) (Const<zeros_uint8>); Pw ascontiguousarray [MaskE]]]) (Glob needs_ranking [Glob gather [Select (Img) (MaskE) (FalseC); MaskE]]) (Glob _filter.median_filter [Select (Glob scatter [Select (Glob rank_order.ranks [Glob gather [Select (Img) (MaskE) (FalseC); MaskE]]) (Glob needs_ranking [Glob gather [Select (Img) (MaskE) (FalseC); MaskE]]) (Glob gather [Select (Img) (MaskE) (FalseC); MaskE]); MaskE]) (MaskE) (Const<zeros_uint8>); Pw ascontiguousarray [MaskE]])) *)
 Definition prog_median_filter : expr :=
-  (Glob 14 [Img]).
+  (Select (Pw 0 [Img]) (Glob 1 [(Pw 2 [MaskE])]) (Select (Glob 3 [(Glob 4 [(Glob 5 [(Select Img MaskE FalseC); MaskE])]); (Glob 6 [(Select (Glob 7 [(Select (Glob 8 [(Glob 5 [(Select Img MaskE FalseC); MaskE])]) (Glob 9 [(Glob 5 [(Select Img MaskE FalseC); MaskE])]) (Glob 5 [(Select Img MaskE FalseC); MaskE])); MaskE]) MaskE (Const 0)); (Pw 10 [MaskE])])]) (Glob 9 [(Glob 5 [(Select Img MaskE FalseC); MaskE])]) (Glob 6 [(Select (Glob 7 [(Select (Glob 8 [(Glob 5 [(Select Img MaskE FalseC); MaskE])]) (Glob 9 [(Glob 5 [(Select Img MaskE FalseC); MaskE])]) (Glob 5 [(Select Img MaskE FalseC); MaskE])); MaskE]) MaskE (Const 0)); (Pw 10 [MaskE])]))).
 Example median_filter_ok : accepts prog_median_filter = true.
 Proof. vm_compute. reflexivity. Qed.
 
 (* grey_erosion:  Select (Glob crop(iradius:-iradius,iradius:-iradius) [Glob grey_erosion [Glob setslice(iradius:-iradius,iradius:-iradius) [Const<ones>; Select (Img) (MaskE) (Const<1>)]]]) (MaskE) (Img) *)
 Definition prog_grey_erosion : expr :=
-  (Select (Glob 15 [(Glob 16 [(Glob 17 [(Const 1); (Select Img MaskE (Const 2))])])]) MaskE Img).
+  (Select (Glob 14 [(Glob 15 [(Glob 16 [(Const 1); (Select Img MaskE (Const 2))])])]) MaskE Img).
 Example grey_erosion_ok : accepts prog_grey_erosion = true.
 Proof. vm_compute. reflexivity. Qed.
 
 (* grey_dilation:  Select (Glob crop(iradius:-iradius,iradius:-iradius) [Glob grey_dilation [Glob setslice(iradius:-iradius,iradius:-iradius) [Const<zeros>; Select (Img) (MaskE) (FalseC)]]]) (MaskE) (Img) *)
 Definition prog_grey_dilation : expr :=
-  (Select (Glob 15 [(Glob 18 [(Glob 17 [(Const 3); (Select Img MaskE FalseC)])])]) MaskE Img).
+  (Select (Glob 14 [(Glob 17 [(Glob 16 [(Const 3); (Select Img MaskE FalseC)])])]) MaskE Img).
 Example grey_dilation_ok : accepts prog_grey_dilation = true.
 Proof. vm_compute. reflexivity. Qed.
 
 (* opening:  Select (Glob crop(iradius:-iradius,iradius:-iradius) [Glob grey_dilation [Glob setslice(iradius:-iradius,iradius:-iradius) [Const<zeros>; Select (Select (Glob crop(iradius:-iradius,iradius:-iradius) [Glob grey_erosion [Glob setslice(iradius:-iradius,iradius:-iradius) [Const<ones>; Select (Img) (MaskE) (Const<1>)]]]) (MaskE) (Img)) (MaskE) (FalseC)]]]) (MaskE) (Select (Glob crop(iradius:-iradius,iradius:-iradius) [Glob grey_erosion [Glob setslice(iradius:-iradius,iradius:-iradius) [Const<ones>; Select (Img) (MaskE) (Const<1>)]]]) (MaskE) (Img)) *)
 Definition prog_opening : expr :=
-  (Select (Glob 15 [(Glob 18 [(Glob 17 [(Const 3); (Select (Select (Glob 15 [(Glob 16 [(Glob 17 [(Const 1); (Select Img MaskE (Const 2))])])]) MaskE Img) MaskE FalseC)])])]) MaskE (Select (Glob 15 [(Glob 16 [(Glob 17 [(Const 1); (Select Img MaskE (Const 2))])])]) MaskE Img)).
+  (Select (Glob 14 [(Glob 17 [(Glob 16 [(Const 3); (Select (Select (Glob 14 [(Glob 15 [(Glob 16 [(Const 1); (Select Img MaskE (Const 2))])])]) MaskE Img) MaskE FalseC)])])]) MaskE (Select (Glob 14 [(Glob 15 [(Glob 16 [(Const 1); (Select Img MaskE (Const 2))])])]) MaskE Img)).
 Example opening_ok : accepts prog_opening = true.
 Proof. vm_compute. reflexivity. Qed.
 
 (* closing:  Select (Glob crop(iradius:-iradius,iradius:-iradius) [Glob grey_erosion [Glob setslice(iradius:-iradius,iradius:-iradius) [Const<ones>; Select (Select (Glob crop(iradius:-iradius,iradius:-iradius) [Glob grey_dilation [Glob setslice(iradius:-iradius,iradius:-iradius) [Const<zeros>; Select (Img) (MaskE) (FalseC)]]]) (MaskE) (Img)) (MaskE) (Const<1>)]]]) (MaskE) (Select (Glob crop(iradius:-iradius,iradius:-iradius) [Glob grey_dilation [Glob setslice(iradius:-iradius,iradius:-iradius) [Const<zeros>; Select (Img) (MaskE) (FalseC)]]]) (MaskE) (Img)) *)
 Definition prog_closing : expr :=
-  (Select (Glob 15 [(Glob 16 [(Glob 17 [(Const 1); (Select (Select (Glob 15 [(Glob 18 [(Glob 17 [(Const 3); (Select Img MaskE FalseC)])])]) MaskE Img) MaskE (Const 2))])])]) MaskE (Select (Glob 15 [(Glob 18 [(Glob 17 [(Const 3); (Select Img MaskE FalseC)])])]) MaskE Img)).
+  (Select (Glob 14 [(Glob 15 [(Glob 16 [(Const 1); (Select (Select (Glob 14 [(Glob 17 [(Glob 16 [(Const 3); (Select Img MaskE FalseC)])])]) MaskE Img) MaskE (Const 2))])])]) MaskE (Select (Glob 14 [(Glob 17 [(Glob 16 [(Const 3); (Select Img MaskE FalseC)])])]) MaskE Img)).
 Example closing_ok : accepts prog_closing = true.
 Proof. vm_compute. reflexivity. Qed.
 
 (* white_tophat:  Select (Pw sub [Img; Select (Glob crop(iradius:-iradius,iradius:-iradius) [Glob grey_dilation [Glob setslice(iradius:-iradius,iradius:-iradius) [Const<zeros>; Select (Select (Glob crop(iradius:-iradius,iradius:-iradius) [Glob grey_erosion [Glob setslice(iradius:-iradius,iradius:-iradius) [Const<ones>; Select (Img) (MaskE) (Const<1>)]]]) (MaskE) (Img)) (MaskE) (FalseC)]]]) (MaskE) (Select (Glob crop(iradius:-iradius,iradius:-iradius) [Glob grey_erosion [Glob setslice(iradius:-iradius,iradius:-iradius) [Const<ones>; Select (Img) (MaskE) (Const<1>)]]]) (MaskE) (Img))]) (MaskE) (Img) *)
 Definition prog_white_tophat : expr :=
-  (Select (Pw 19 [Img; (Select (Glob 15 [(Glob 18 [(Glob 17 [(Const 3); (Select (Select (Glob 15 [(Glob 16 [(Glob 17 [(Const 1); (Select Img MaskE (Const 2))])])]) MaskE Img) MaskE FalseC)])])]) MaskE (Select (Glob 15 [(Glob 16 [(Glob 17 [(Const 1); (Select Img MaskE (Const 2))])])]) MaskE Img))]) MaskE Img).
+  (Select (Pw 18 [Img; (Select (Glob 14 [(Glob 17 [(Glob 16 [(Const 3); (Select (Select (Glob 14 [(Glob 15 [(Glob 16 [(Const 1); (Select Img MaskE (Const 2))])])]) MaskE Img) MaskE FalseC)])])]) MaskE (Select (Glob 14 [(Glob 15 [(Glob 16 [(Const 1); (Select Img MaskE (Const 2))])])]) MaskE Img))]) MaskE Img).
 Example white_tophat_ok : accepts prog_white_tophat = true.
 Proof. vm_compute. reflexivity. Qed.
 
 (* black_tophat:  Select (Pw sub [Select (Glob crop(iradius:-iradius,iradius:-iradius) [Glob grey_erosion [Glob setslice(iradius:-iradius,iradius:-iradius) [Const<ones>; Select (Select (Glob crop(iradius:-iradius,iradius:-iradius) [Glob grey_dilation [Glob setslice(iradius:-iradius,iradius:-iradius) [Const<zeros>; Select (Img) (MaskE) (FalseC)]]]) (MaskE) (Img)) (MaskE) (Const<1>)]]]) (MaskE) (Select (Glob crop(iradius:-iradius,iradius:-iradius) [Glob grey_dilation [Glob setslice(iradius:-iradius,iradius:-iradius) [Const<zeros>; Select (Img) (MaskE) (FalseC)]]]) (MaskE) (Img)); Img]) (MaskE) (Img) *)
 Definition prog_black_tophat : expr :=
-  (Select (Pw 19 [(Select (Glob 15 [(Glob 16 [(Glob 17 [(Const 1); (Select (Select (Glob 15 [(Glob 18 [(Glob 17 [(Const 3); (Select Img MaskE FalseC)])])]) MaskE Img) MaskE (Const 2))])])]) MaskE (Select (Glob 15 [(Glob 18 [(Glob 17 [(Const 3); (Select Img MaskE FalseC)])])]) MaskE Img)); Img]) MaskE Img).
+  (Select (Pw 18 [(Select (Glob 14 [(Glob 15 [(Glob 16 [(Const 1); (Select (Select (Glob 14 [(Glob 17 [(Glob 16 [(Const 3); (Select Img MaskE FalseC)])])]) MaskE Img) MaskE (Const 2))])])]) MaskE (Select (Glob 14 [(Glob 17 [(Glob 16 [(Const 3); (Select Img MaskE FalseC)])])]) MaskE Img)); Img]) MaskE Img).
 Example black_tophat_ok : accepts prog_black_tophat = true.
 Proof. vm_compute. reflexivity. Qed.
 
 (* openlines:  Pw sub [Pw max_axis0 [Select (Glob crop(iradius:-iradius,iradius:-iradius) [Glob grey_dilation@angle0 [Glob setslice(iradius:-iradius,iradius:-iradius) [Const<zeros>; Select (Select (Glob crop(iradius:-iradius,iradius:-iradius) [Glob grey_erosion@angle0 [Glob setslice(iradius:-iradius,iradius:-iradius) [Const<ones>; Select (Img) (MaskE) (Const<1>)]]]) (MaskE) (Img)) (MaskE) (FalseC)]]]) (MaskE) (Select (Glob crop(iradius:-iradius,iradius:-iradius) [Glob grey_erosion@angle0 [Glob setslice(iradius:-iradius,iradius:-iradius) [Const<ones>; Select (Img) (MaskE) (Const<1>)]]]) (MaskE) (Img)); Select (Glob crop(iradius:-iradius,iradius:-iradius) [Glob grey_dilation@angle1 [Glob setslice(iradius:-iradius,iradius:-iradius) [Const<zeros>; Select (Select (Glob crop(iradius:-iradius,iradius:-iradius) [Glob grey_erosion@angle1 [Glob setslice(iradius:-iradius,iradius:-iradius) [Const<ones>; Select (Img) (MaskE) (Const<1>)]]]) (MaskE) (Img)) (MaskE) (FalseC)]]]) (MaskE) (Select (Glob crop(iradius:-iradius,iradius:-iradius) [Glob grey_erosion@angle1 [Glob setslice(iradius:-iradius,iradius:-iradius) [Const<ones>; Select (Img) (MaskE) (Const<1>)]]]) (MaskE) (Img)); Select (Glob crop(iradius:-iradius,iradius:-iradius) [Glob grey_dilation@angle2 [Glob setslice(iradius:-iradius,iradius:-iradius) [Const<zeros>; Select (Select (Glob crop(iradius:-iradius,iradius:-iradius) [Glob grey_erosion@angle2 [Glob setslice(iradius:-iradius,iradius:-iradius) [Const<ones>; Select (Img) (MaskE) (Const<1>)]]]) (MaskE) (Img)) (MaskE) (FalseC)]]]) (MaskE) (Select (Glob crop(iradius:-iradius,iradius:-iradius) [Glob grey_erosion@angle2 [Glob setslice(iradius:-iradius,iradius:-iradius) [Const<ones>; Select (Img) (MaskE) (Const<1>)]]]) (MaskE) (Img))]; Pw min_axis0 [Select (Glob crop(iradius:-iradius,iradius:-iradius) [Glob grey_dilation@angle0 [Glob setslice(iradius:-iradius,iradius:-iradius) [Const<zeros>; Select (Select (Glob crop(iradius:-iradius,iradius:-iradius) [Glob grey_erosion@angle0 [Glob setslice(iradius:-iradius,iradius:-iradius) [Const<ones>; Select (Img) (MaskE) (Const<1>)]]]) (MaskE) (Img)) (MaskE) (FalseC)]]]) (MaskE) (Select (Glob crop(iradius:-iradius,iradius:-iradius) [Glob grey_erosion@angle0 [Glob setslice(iradius:-iradius,iradius:-iradius) [Const<ones>; Select (Img) (MaskE) (Const<1>)]]]) (MaskE) (Img)); Select (Glob crop(iradius:-iradius,iradius:-iradius) [Glob grey_dilation@angle1 [Glob setslice(iradius:-iradius,iradius:-iradius) [Const<zeros>; Select (Select (Glob crop(iradius:-iradius,iradius:-iradius) [Glob grey_erosion@angle1 [Glob setslice(iradius:-iradius,iradius:-iradius) [Const<ones>; Select (Img) (MaskE) (Const<1>)]]]) (MaskE) (Img)) (MaskE) (FalseC)]]]) (MaskE) (Select (Glob crop(iradius:-iradius,iradius:-iradius) [Glob grey_erosion@angle1 [Glob setslice(iradius:-iradius,iradius:-iradius) [Const<ones>; Select (Img) (MaskE) (Const<1>)]]]) (MaskE) (Img)); Select (Glob crop(iradius:-iradius,iradius:-iradius) [Glob grey_dilation@angle2 [Glob setslice(iradius:-iradius,iradius:-iradius) [Const<zeros>; Select (Select (Glob crop(iradius:-iradius,iradius:-iradius) [Glob grey_erosion@angle2 [Glob setslice(iradius:-iradius,iradius:-iradius) [Const<ones>; Select (Img) (MaskE) (Const<1>)]]]) (MaskE) (Img)) (MaskE) (FalseC)]]]) (MaskE) (Select (Glob crop(iradius:-iradius,iradius:-iradius) [Glob grey_erosion@angle2 [Glob setslice(iradius:-iradius,iradius:-iradius) [Const<ones>; Select (Img) (MaskE) (Const<1>)]]]) (MaskE) (Img))]] *)
 Definition prog_openlines : expr :=
-  (Pw 19 [(Pw 20 [(Select (Glob 15 [(Glob 21 [(Glob 17 [(Const 3); (Select (Select (Glob 15 [(Glob 22 [(Glob 17 [(Const 1); (Select Img MaskE (Const 2))])])]) MaskE Img) MaskE FalseC)])])]) MaskE (Select (Glob 15 [(Glob 22 [(Glob 17 [(Const 1); (Select Img MaskE (Const 2))])])]) MaskE Img)); (Select (Glob 15 [(Glob 23 [(Glob 17 [(Const 3); (Select (Select (Glob 15 [(Glob 24 [(Glob 17 [(Const 1); (Select Img MaskE (Const 2))])])]) MaskE Img) MaskE FalseC)])])]) MaskE (Select (Glob 15 [(Glob 24 [(Glob 17 [(Const 1); (Select Img MaskE (Const 2))])])]) MaskE Img)); (Select (Glob 15 [(Glob 25 [(Glob 17 [(Const 3); (Select (Select (Glob 15 [(Glob 26 [(Glob 17 [(Const 1); (Select Img MaskE (Const 2))])])]) MaskE Img) MaskE FalseC)])])]) MaskE (Select (Glob 15 [(Glob 26 [(Glob 17 [(Const 1); (Select Img MaskE (Const 2))])])]) MaskE Img))]); (Pw 27 [(Select (Glob 15 [(Glob 21 [(Glob 17 [(Const 3); (Select (Select (Glob 15 [(Glob 22 [(Glob 17 [(Const 1); (Select Img MaskE (Const 2))])])]) MaskE Img) MaskE FalseC)])])]) MaskE (Select (Glob 15 [(Glob 22 [(Glob 17 [(Const 1); (Select Img MaskE (Const 2))])])]) MaskE Img)); (Select (Glob 15 [(Glob 23 [(Glob 17 [(Const 3); (Select (Select (Glob 15 [(Glob 24 [(Glob 17 [(Const 1); (Select Img MaskE (Const 2))])])]) MaskE Img) MaskE FalseC)])])]) MaskE (Select (Glob 15 [(Glob 24 [(Glob 17 [(Const 1); (Select Img MaskE (Const 2))])])]) MaskE Img)); (Select (Glob 15 [(Glob 25 [(Glob 17 [(Const 3); (Select (Select (Glob 15 [(Glob 26 [(Glob 17 [(Const 1); (Select Img MaskE (Const 2))])])]) MaskE Img) MaskE FalseC)])])]) MaskE (Select (Glob 15 [(Glob 26 [(Glob 17 [(Const 1); (Select Img MaskE (Const 2))])])]) MaskE Img))])]).
+  (Pw 18 [(Pw 19 [(Select (Glob 14 [(Glob 20 [(Glob 16 [(Const 3); (Select (Select (Glob 14 [(Glob 21 [(Glob 16 [(Const 1); (Select Img MaskE (Const 2))])])]) MaskE Img) MaskE FalseC)])])]) MaskE (Select (Glob 14 [(Glob 21 [(Glob 16 [(Const 1); (Select Img MaskE (Const 2))])])]) MaskE Img)); (Select (Glob 14 [(Glob 22 [(Glob 16 [(Const 3); (Select (Select (Glob 14 [(Glob 23 [(Glob 16 [(Const 1); (Select Img MaskE (Const 2))])])]) MaskE Img) MaskE FalseC)])])]) MaskE (Select (Glob 14 [(Glob 23 [(Glob 16 [(Const 1); (Select Img MaskE (Const 2))])])]) MaskE Img)); (Select (Glob 14 [(Glob 24 [(Glob 16 [(Const 3); (Select (Select (Glob 14 [(Glob 25 [(Glob 16 [(Const 1); (Select Img MaskE (Const 2))])])]) MaskE Img) MaskE FalseC)])])]) MaskE (Select (Glob 14 [(Glob 25 [(Glob 16 [(Const 1); (Select Img MaskE (Const 2))])])]) MaskE Img))]); (Pw 26 [(Select (Glob 14 [(Glob 20 [(Glob 16 [(Const 3); (Select (Select (Glob 14 [(Glob 21 [(Glob 16 [(Const 1); (Select Img MaskE (Const 2))])])]) MaskE Img) MaskE FalseC)])])]) MaskE (Select (Glob 14 [(Glob 21 [(Glob 16 [(Const 1); (Select Img MaskE (Const 2))])])]) MaskE Img)); (Select (Glob 14 [(Glob 22 [(Glob 16 [(Const 3); (Select (Select (Glob 14 [(Glob 23 [(Glob 16 [(Const 1); (Select Img MaskE (Const 2))])])]) MaskE Img) MaskE FalseC)])])]) MaskE (Select (Glob 14 [(Glob 23 [(Glob 16 [(Const 1); (Select Img MaskE (Const 2))])])]) MaskE Img)); (Select (Glob 14 [(Glob 24 [(Glob 16 [(Const 3); (Select (Select (Glob 14 [(Glob 25 [(Glob 16 [(Const 1); (Select Img MaskE (Const 2))])])]) MaskE Img) MaskE FalseC)])])]) MaskE (Select (Glob 14 [(Glob 25 [(Glob 16 [(Const 1); (Select Img MaskE (Const 2))])])]) MaskE Img))])]).
 Example openlines_ok : accepts prog_openlines = true.
 Proof. vm_compute. reflexivity. Qed.
 
 (* sobel:  Pw sqrt [Pw add [Pw pow [Select (Pw abs [Loc 1 convolve3x3 (Img)]) (Erode 1 (MaskE)) (FalseC)]; Pw pow [Select (Pw abs [Loc 1 convolve3x3 (Img)]) (Erode 1 (MaskE)) (FalseC)]]] *)
 Definition prog_sobel : expr :=
-  (Pw 28 [(Pw 29 [(Pw 30 [(Select (Pw 31 [(Loc 1 32 Img)]) (Erode 1 MaskE) FalseC)]); (Pw 30 [(Select (Pw 31 [(Loc 1 32 Img)]) (Erode 1 MaskE) FalseC)])])]).
+  (Pw 27 [(Pw 28 [(Pw 29 [(Select (Pw 30 [(Loc 1 31 Img)]) (Erode 1 MaskE) FalseC)]); (Pw 29 [(Select (Pw 30 [(Loc 1 31 Img)]) (Erode 1 MaskE) FalseC)])])]).
 Example sobel_ok : accepts prog_sobel = true.
 Proof. vm_compute. reflexivity. Qed.
 
 (* hsobel:  Select (Pw abs [Loc 1 convolve3x3 (Img)]) (Erode 1 (MaskE)) (FalseC) *)
 Definition prog_hsobel : expr :=
-  (Select (Pw 31 [(Loc 1 32 Img)]) (Erode 1 MaskE) FalseC).
+  (Select (Pw 30 [(Loc 1 31 Img)]) (Erode 1 MaskE) FalseC).
 Example hsobel_ok : accepts prog_hsobel = true.
 Proof. vm_compute. reflexivity. Qed.
 
 (* vsobel:  Select (Pw abs [Loc 1 convolve3x3 (Img)]) (Erode 1 (MaskE)) (FalseC) *)
 Definition prog_vsobel : expr :=
-  (Select (Pw 31 [(Loc 1 32 Img)]) (Erode 1 MaskE) FalseC).
+  (Select (Pw 30 [(Loc 1 31 Img)]) (Erode 1 MaskE) FalseC).
 Example vsobel_ok : accepts prog_vsobel = true.
 Proof. vm_compute. reflexivity. Qed.
 
 (* prewitt:  Pw sqrt [Pw add [Pw pow [Select (Pw abs [Loc 1 convolve3x3 (Img)]) (Erode 1 (MaskE)) (FalseC)]; Pw pow [Select (Pw abs [Loc 1 convolve3x3 (Img)]) (Erode 1 (MaskE)) (FalseC)]]] *)
 Definition prog_prewitt : expr :=
-  (Pw 28 [(Pw 29 [(Pw 30 [(Select (Pw 31 [(Loc 1 32 Img)]) (Erode 1 MaskE) FalseC)]); (Pw 30 [(Select (Pw 31 [(Loc 1 32 Img)]) (Erode 1 MaskE) FalseC)])])]).
+  (Pw 27 [(Pw 28 [(Pw 29 [(Select (Pw 30 [(Loc 1 31 Img)]) (Erode 1 MaskE) FalseC)]); (Pw 29 [(Select (Pw 30 [(Loc 1 31 Img)]) (Erode 1 MaskE) FalseC)])])]).
 Example prewitt_ok : accepts prog_prewitt = true.
 Proof. vm_compute. reflexivity. Qed.
 
 (* hprewitt:  Select (Pw abs [Loc 1 convolve3x3 (Img)]) (Erode 1 (MaskE)) (FalseC) *)
 Definition prog_hprewitt : expr :=
-  (Select (Pw 31 [(Loc 1 32 Img)]) (Erode 1 MaskE) FalseC).
+  (Select (Pw 30 [(Loc 1 31 Img)]) (Erode 1 MaskE) FalseC).
 Example hprewitt_ok : accepts prog_hprewitt = true.
 Proof. vm_compute. reflexivity. Qed.
 
 (* vprewitt:  Select (Pw abs [Loc 1 convolve3x3 (Img)]) (Erode 1 (MaskE)) (FalseC) *)
 Definition prog_vprewitt : expr :=
-  (Select (Pw 31 [(Loc 1 32 Img)]) (Erode 1 MaskE) FalseC).
+  (Select (Pw 30 [(Loc 1 31 Img)]) (Erode 1 MaskE) FalseC).
 Example vprewitt_ok : accepts prog_vprewitt = true.
 Proof. vm_compute. reflexivity. Qed.
 
 (* roberts:  Select (Pw roberts_magnitude [Img; Loc 1 shift(+1,+1) (Img); Loc 1 shift(-1,+1) (Img)]) (Erode 1 (MaskE)) (Const<zeros>) *)
 Definition prog_roberts : expr :=
-  (Select (Pw 33 [Img; (Loc 1 34 Img); (Loc 1 35 Img)]) (Erode 1 MaskE) (Const 3)).
+  (Select (Pw 32 [Img; (Loc 1 33 Img); (Loc 1 34 Img)]) (Erode 1 MaskE) (Const 3)).
 Example roberts_ok : accepts prog_roberts = true.
 Proof. vm_compute. reflexivity. Qed.
 
 (* canny:  Glob canny_gradient_nms_hysteresis [Pw div [Glob function [Select (Img) (MaskE) (Const<zeros>)]; Pw add [Glob function [Pw astype [MaskE]]]]; Erode 1 (MaskE)] *)
 Definition prog_canny : expr :=
-  (Glob 36 [(Pw 37 [(Glob 38 [(Select Img MaskE (Const 3))]); (Pw 29 [(Glob 38 [(Pw 39 [MaskE])])])]); (Erode 1 MaskE)]).
+  (Glob 35 [(Pw 36 [(Glob 37 [(Select Img MaskE (Const 3))]); (Pw 28 [(Glob 37 [(Pw 38 [MaskE])])])]); (Erode 1 MaskE)]).
 Example canny_ok : accepts prog_canny = true.
 Proof. vm_compute. reflexivity. Qed.
 
 (* laplacian_of_gaussian:  Select (Pw add [Glob convolve [Select (Pw copy [Img]) (MaskE) (FalseC)]; Pw mult [Glob convolve [Pw astype [Pw not [MaskE]]]; Img]]) (MaskE) (Img) *)
 Definition prog_laplacian_of_gaussian : expr :=
-  (Select (Pw 29 [(Glob 40 [(Select (Pw 0 [Img]) MaskE FalseC)]); (Pw 41 [(Glob 40 [(Pw 39 [(Pw 2 [MaskE])])]); Img])]) MaskE Img).
+  (Select (Pw 28 [(Glob 39 [(Select (Pw 0 [Img]) MaskE FalseC)]); (Pw 40 [(Glob 39 [(Pw 38 [(Pw 2 [MaskE])])]); Img])]) MaskE Img).
 Example laplacian_of_gaussian_ok : accepts prog_laplacian_of_gaussian = true.
 Proof. vm_compute. reflexivity. Qed.
 
 (* variance_transform:  Pw sub [Pw div [Glob gaussian_filter [Pw pow [Select (Pw copy [Img]) (MaskE) (FalseC)]]; Glob gaussian_filter [Pw astype [MaskE]]]; Pw pow [Pw div [Glob gaussian_filter [Select (Pw copy [Img]) (MaskE) (FalseC)]; Glob gaussian_filter [Pw astype [MaskE]]]]] *)
 Definition prog_variance_transform : expr :=
-  (Pw 19 [(Pw 37 [(Glob 42 [(Pw 30 [(Select (Pw 0 [Img]) MaskE FalseC)])]); (Glob 42 [(Pw 39 [MaskE])])]); (Pw 30 [(Pw 37 [(Glob 42 [(Select (Pw 0 [Img]) MaskE FalseC)]); (Glob 42 [(Pw 39 [MaskE])])])])]).
+  (Pw 18 [(Pw 36 [(Glob 41 [(Pw 29 [(Select (Pw 0 [Img]) MaskE FalseC)])]); (Glob 41 [(Pw 38 [MaskE])])]); (Pw 29 [(Pw 36 [(Glob 41 [(Select (Pw 0 [Img]) MaskE FalseC)]); (Glob 41 [(Pw 38 [MaskE])])])])]).
 Example variance_transform_ok : accepts prog_variance_transform = true.
 Proof. vm_compute. reflexivity. Qed.
 
 (* circular_average_filter:  Select (MConv pillbox_kernel (Img) (MaskE)) (MaskE) (Img) *)
 Definition prog_circular_average_filter : expr :=
-  (Select (MConv 43 Img MaskE) MaskE Img).
+  (Select (MConv 42 Img MaskE) MaskE Img).
 Example circular_average_filter_ok : accepts prog_circular_average_filter = true.
 Proof. vm_compute. reflexivity. Qed.
 
 (* smooth_with_function_and_mask:  Pw div [Glob function [Select (Img) (MaskE) (Const<zeros>)]; Pw add [Glob function [Pw astype [MaskE]]]] *)
 Definition prog_smooth_with_function_and_mask : expr :=
-  (Pw 37 [(Glob 38 [(Select Img MaskE (Const 3))]); (Pw 29 [(Glob 38 [(Pw 39 [MaskE])])])]).
+  (Pw 36 [(Glob 37 [(Select Img MaskE (Const 3))]); (Pw 28 [(Glob 37 [(Pw 38 [MaskE])])])]).
 Example smooth_with_function_and_mask_ok : accepts prog_smooth_with_function_and_mask = true.
 Proof. vm_compute. reflexivity. Qed.
 
 (* stretch:  Select (Pw array [Img]) (Const<product(shape)==0>) (Select (Pw array [Img]) (Glob size_is_0 [Glob gather [Select (Pw array [Img]) (MaskE) (FalseC); MaskE]]) (Select (Glob scatter [Select (Glob min [Glob gather [Select (Pw array [Img]) (MaskE) (FalseC); MaskE]]) (Pw eq [Glob min [Glob gather [Select (Pw array [Img]) (MaskE) (FalseC); MaskE]]; Glob max [Glob gather [Select (Pw array [Img]) (MaskE) (FalseC); MaskE]]]) (Pw div [Pw sub [Glob gather [Select (Pw array [Img]) (MaskE) (FalseC); MaskE]; Glob min [Glob gather [Select (Pw array [Img]) (MaskE) (FalseC); MaskE]]]; Pw sub [Glob max [Glob gather [Select (Pw array [Img]) (MaskE) (FalseC); MaskE]]; Glob min [Glob gather [Select (Pw array [Img]) (MaskE) (FalseC); MaskE]]]]); MaskE]) (MaskE) (Pw array [Img]))) *)
 Definition prog_stretch : expr :=
-  (Select (Pw 44 [Img]) (Const 4) (Select (Pw 44 [Img]) (Glob 45 [(Glob 5 [(Select (Pw 44 [Img]) MaskE FalseC); MaskE])]) (Select (Glob 7 [(Select (Glob 46 [(Glob 5 [(Select (Pw 44 [Img]) MaskE FalseC); MaskE])]) (Pw 47 [(Glob 46 [(Glob 5 [(Select (Pw 44 [Img]) MaskE FalseC); MaskE])]); (Glob 48 [(Glob 5 [(Select (Pw 44 [Img]) MaskE FalseC); MaskE])])]) (Pw 37 [(Pw 19 [(Glob 5 [(Select (Pw 44 [Img]) MaskE FalseC); MaskE]); (Glob 46 [(Glob 5 [(Select (Pw 44 [Img]) MaskE FalseC); MaskE])])]); (Pw 19 [(Glob 48 [(Glob 5 [(Select (Pw 44 [Img]) MaskE FalseC); MaskE])]); (Glob 46 [(Glob 5 [(Select (Pw 44 [Img]) MaskE FalseC); MaskE])])])])); MaskE]) MaskE (Pw 44 [Img])))).
+  (Select (Pw 43 [Img]) (Const 4) (Select (Pw 43 [Img]) (Glob 44 [(Glob 5 [(Select (Pw 43 [Img]) MaskE FalseC); MaskE])]) (Select (Glob 7 [(Select (Glob 45 [(Glob 5 [(Select (Pw 43 [Img]) MaskE FalseC); MaskE])]) (Pw 46 [(Glob 45 [(Glob 5 [(Select (Pw 43 [Img]) MaskE FalseC); MaskE])]); (Glob 47 [(Glob 5 [(Select (Pw 43 [Img]) MaskE FalseC); MaskE])])]) (Pw 36 [(Pw 18 [(Glob 5 [(Select (Pw 43 [Img]) MaskE FalseC); MaskE]); (Glob 45 [(Glob 5 [(Select (Pw 43 [Img]) MaskE FalseC); MaskE])])]); (Pw 18 [(Glob 47 [(Glob 5 [(Select (Pw 43 [Img]) MaskE FalseC); MaskE])]); (Glob 45 [(Glob 5 [(Select (Pw 43 [Img]) MaskE FalseC); MaskE])])])])); MaskE]) MaskE (Pw 43 [Img])))).
 Example stretch_ok : accepts prog_stretch = true.
 Proof. vm_compute. reflexivity. Qed.
 
 (* fit_polynomial:  Select (Glob polynomial_image_clipped [Glob lstsq [Glob gather [Select (Const<x,y,x2,y2,xy,o>) (Select (Pw gt0 [Img]) (MaskE) (FalseC)) (FalseC); Select (Pw gt0 [Img]) (MaskE) (FalseC)]; Glob gather [Select (Img) (Select (Pw gt0 [Img]) (MaskE) (FalseC)) (FalseC); Select (Pw gt0 [Img]) (MaskE) (FalseC)]]]) (Glob any [Select (Pw gt0 [Img]) (MaskE) (FalseC)]) (Img) *)
 Definition prog_fit_polynomial : expr :=
-  (Select (Glob 49 [(Glob 50 [(Glob 5 [(Select (Const 5) (Select (Pw 51 [Img]) MaskE FalseC) FalseC); (Select (Pw 51 [Img]) MaskE FalseC)]); (Glob 5 [(Select Img (Select (Pw 51 [Img]) MaskE FalseC) FalseC); (Select (Pw 51 [Img]) MaskE FalseC)])])]) (Glob 13 [(Select (Pw 51 [Img]) MaskE FalseC)]) Img).
+  (Select (Glob 48 [(Glob 49 [(Glob 5 [(Select (Const 5) (Select (Pw 50 [Img]) MaskE FalseC) FalseC); (Select (Pw 50 [Img]) MaskE FalseC)]); (Glob 5 [(Select Img (Select (Pw 50 [Img]) MaskE FalseC) FalseC); (Select (Pw 50 [Img]) MaskE FalseC)])])]) (Glob 13 [(Select (Pw 50 [Img]) MaskE FalseC)]) Img).
 Example fit_polynomial_ok : accepts prog_fit_polynomial = true.
 Proof. vm_compute. reflexivity. Qed.
 
 (* circular_hough:  Select (Pw div [Glob sum_of_shifts [Select (Img) (MaskE) (FalseC); MaskE]; Glob sum_of_shifts [Pw astype [MaskE]]]) (Pw gt0 [Glob sum_of_shifts [Pw astype [MaskE]]]) (Glob sum_of_shifts [Select (Img) (MaskE) (FalseC); MaskE]) *)
 Definition prog_circular_hough : expr :=
-  (Select (Pw 37 [(Glob 52 [(Select Img MaskE FalseC); MaskE]); (Glob 52 [(Pw 39 [MaskE])])]) (Pw 51 [(Glob 52 [(Pw 39 [MaskE])])]) (Glob 52 [(Select Img MaskE FalseC); MaskE])).
+  (Select (Pw 36 [(Glob 51 [(Select Img MaskE FalseC); MaskE]); (Glob 51 [(Pw 38 [MaskE])])]) (Pw 50 [(Glob 51 [(Pw 38 [MaskE])])]) (Glob 51 [(Select Img MaskE FalseC); MaskE])).
 Example circular_hough_ok : accepts prog_circular_hough = true.
 Proof. vm_compute. reflexivity. Qed.
 
 (* convex_hull_transform:  Select (Const<zeros>) (Glob len_is_0 [Glob gather [Select (Img) (MaskE) (FalseC); MaskE]]) (Select (Img) (Pw eq [Glob min [Glob gather [Select (Img) (MaskE) (FalseC); MaskE]]; Glob max [Glob gather [Select (Img) (MaskE) (FalseC); MaskE]]]) (Glob convex_hull_transform_core [Select (Pw rescale [Img; Glob min [Glob gather [Select (Img) (MaskE) (FalseC); MaskE]]; Glob max [Glob gather [Select (Img) (MaskE) (FalseC); MaskE]]]) (MaskE) (FalseC); Glob min [Glob gather [Select (Img) (MaskE) (FalseC); MaskE]]; Glob max [Glob gather [Select (Img) (MaskE) (FalseC); MaskE]]])) *)
 Definition prog_convex_hull_transform : expr :=
-  (Select (Const 3) (Glob 53 [(Glob 5 [(Select Img MaskE FalseC); MaskE])]) (Select Img (Pw 47 [(Glob 46 [(Glob 5 [(Select Img MaskE FalseC); MaskE])]); (Glob 48 [(Glob 5 [(Select Img MaskE FalseC); MaskE])])]) (Glob 54 [(Select (Pw 55 [Img; (Glob 46 [(Glob 5 [(Select Img MaskE FalseC); MaskE])]); (Glob 48 [(Glob 5 [(Select Img MaskE FalseC); MaskE])])]) MaskE FalseC); (Glob 46 [(Glob 5 [(Select Img MaskE FalseC); MaskE])]); (Glob 48 [(Glob 5 [(Select Img MaskE FalseC); MaskE])])]))).
+  (Select (Const 3) (Glob 52 [(Glob 5 [(Select Img MaskE FalseC); MaskE])]) (Select Img (Pw 46 [(Glob 45 [(Glob 5 [(Select Img MaskE FalseC); MaskE])]); (Glob 47 [(Glob 5 [(Select Img MaskE FalseC); MaskE])])]) (Glob 53 [(Select (Pw 54 [Img; (Glob 45 [(Glob 5 [(Select Img MaskE FalseC); MaskE])]); (Glob 47 [(Glob 5 [(Select Img MaskE FalseC); MaskE])])]) MaskE FalseC); (Glob 45 [(Glob 5 [(Select Img MaskE FalseC); MaskE])]); (Glob 47 [(Glob 5 [(Select Img MaskE FalseC); MaskE])])]))).
 Example convex_hull_transform_ok : accepts prog_convex_hull_transform = true.
 Proof. vm_compute. reflexivity. Qed.
 
@@ -174,7 +174,7 @@ Proof. vm_compute. reflexivity. Qed.
 
 (* bridge:  Select (Glob table_lookup [Select (Pw copy [Pw astype [Img]]) (MaskE) (FalseC)]) (MaskE) (Img) *)
 Definition prog_bridge : expr :=
-  (Select (Glob 56 [(Select (Pw 0 [(Pw 39 [Img])]) MaskE FalseC)]) MaskE Img).
+  (Select (Glob 55 [(Select (Pw 0 [(Pw 38 [Img])]) MaskE FalseC)]) MaskE Img).
 Example bridge_ok : accepts prog_bridge = true.
 Proof. vm_compute. reflexivity. Qed.
 Example bridge_restores : restores_outside prog_bridge = true.
@@ -182,7 +182,7 @@ Proof. vm_compute. reflexivity. Qed.
 
 (* clean:  Select (Glob table_lookup [Select (Pw copy [Pw astype [Img]]) (MaskE) (FalseC)]) (MaskE) (Img) *)
 Definition prog_clean : expr :=
-  (Select (Glob 56 [(Select (Pw 0 [(Pw 39 [Img])]) MaskE FalseC)]) MaskE Img).
+  (Select (Glob 55 [(Select (Pw 0 [(Pw 38 [Img])]) MaskE FalseC)]) MaskE Img).
 Example clean_ok : accepts prog_clean = true.
 Proof. vm_compute. reflexivity. Qed.
 Example clean_restores : restores_outside prog_clean = true.
@@ -190,7 +190,7 @@ Proof. vm_compute. reflexivity. Qed.
 
 (* diag:  Select (Glob table_lookup [Select (Pw copy [Pw astype [Img]]) (MaskE) (FalseC)]) (MaskE) (Img) *)
 Definition prog_diag : expr :=
-  (Select (Glob 56 [(Select (Pw 0 [(Pw 39 [Img])]) MaskE FalseC)]) MaskE Img).
+  (Select (Glob 55 [(Select (Pw 0 [(Pw 38 [Img])]) MaskE FalseC)]) MaskE Img).
 Example diag_ok : accepts prog_diag = true.
 Proof. vm_compute. reflexivity. Qed.
 Example diag_restores : restores_outside prog_diag = true.
@@ -198,7 +198,7 @@ Proof. vm_compute. reflexivity. Qed.
 
 (* endpoints:  Select (Glob table_lookup [Select (Pw copy [Pw astype [Img]]) (MaskE) (FalseC)]) (MaskE) (Img) *)
 Definition prog_endpoints : expr :=
-  (Select (Glob 56 [(Select (Pw 0 [(Pw 39 [Img])]) MaskE FalseC)]) MaskE Img).
+  (Select (Glob 55 [(Select (Pw 0 [(Pw 38 [Img])]) MaskE FalseC)]) MaskE Img).
 Example endpoints_ok : accepts prog_endpoints = true.
 Proof. vm_compute. reflexivity. Qed.
 Example endpoints_restores : restores_outside prog_endpoints = true.
@@ -206,7 +206,7 @@ Proof. vm_compute. reflexivity. Qed.
 
 (* branchpoints:  Select (Glob table_lookup [Select (Pw copy [Pw astype [Img]]) (MaskE) (FalseC)]) (MaskE) (Img) *)
 Definition prog_branchpoints : expr :=
-  (Select (Glob 56 [(Select (Pw 0 [(Pw 39 [Img])]) MaskE FalseC)]) MaskE Img).
+  (Select (Glob 55 [(Select (Pw 0 [(Pw 38 [Img])]) MaskE FalseC)]) MaskE Img).
 Example branchpoints_ok : accepts prog_branchpoints = true.
 Proof. vm_compute. reflexivity. Qed.
 Example branchpoints_restores : restores_outside prog_branchpoints = true.
@@ -214,7 +214,7 @@ Proof. vm_compute. reflexivity. Qed.
 
 (* fill:  Select (Glob table_lookup [Select (Pw copy [Pw astype [Img]]) (MaskE) (Const<True>)]) (MaskE) (Img) *)
 Definition prog_fill : expr :=
-  (Select (Glob 56 [(Select (Pw 0 [(Pw 39 [Img])]) MaskE (Const 6))]) MaskE Img).
+  (Select (Glob 55 [(Select (Pw 0 [(Pw 38 [Img])]) MaskE (Const 6))]) MaskE Img).
 Example fill_ok : accepts prog_fill = true.
 Proof. vm_compute. reflexivity. Qed.
 Example fill_restores : restores_outside prog_fill = true.
@@ -222,7 +222,7 @@ Proof. vm_compute. reflexivity. Qed.
 
 (* fill4:  Select (Glob table_lookup [Select (Pw copy [Pw astype [Img]]) (MaskE) (Const<True>)]) (MaskE) (Img) *)
 Definition prog_fill4 : expr :=
-  (Select (Glob 56 [(Select (Pw 0 [(Pw 39 [Img])]) MaskE (Const 6))]) MaskE Img).
+  (Select (Glob 55 [(Select (Pw 0 [(Pw 38 [Img])]) MaskE (Const 6))]) MaskE Img).
 Example fill4_ok : accepts prog_fill4 = true.
 Proof. vm_compute. reflexivity. Qed.
 Example fill4_restores : restores_outside prog_fill4 = true.
@@ -230,7 +230,7 @@ Proof. vm_compute. reflexivity. Qed.
 
 (* hbreak:  Select (Glob table_lookup [Select (Pw copy [Pw astype [Img]]) (MaskE) (FalseC)]) (MaskE) (Img) *)
 Definition prog_hbreak : expr :=
-  (Select (Glob 56 [(Select (Pw 0 [(Pw 39 [Img])]) MaskE FalseC)]) MaskE Img).
+  (Select (Glob 55 [(Select (Pw 0 [(Pw 38 [Img])]) MaskE FalseC)]) MaskE Img).
 Example hbreak_ok : accepts prog_hbreak = true.
 Proof. vm_compute. reflexivity. Qed.
 Example hbreak_restores : restores_outside prog_hbreak = true.
@@ -238,7 +238,7 @@ Proof. vm_compute. reflexivity. Qed.
 
 (* vbreak:  Select (Glob table_lookup [Select (Pw copy [Pw astype [Img]]) (MaskE) (FalseC)]) (MaskE) (Img) *)
 Definition prog_vbreak : expr :=
-  (Select (Glob 56 [(Select (Pw 0 [(Pw 39 [Img])]) MaskE FalseC)]) MaskE Img).
+  (Select (Glob 55 [(Select (Pw 0 [(Pw 38 [Img])]) MaskE FalseC)]) MaskE Img).
 Example vbreak_ok : accepts prog_vbreak = true.
 Proof. vm_compute. reflexivity. Qed.
 Example vbreak_restores : restores_outside prog_vbreak = true.
@@ -246,7 +246,7 @@ Proof. vm_compute. reflexivity. Qed.
 
 (* majority:  Select (Glob table_lookup [Select (Pw copy [Pw astype [Img]]) (MaskE) (FalseC)]) (MaskE) (Img) *)
 Definition prog_majority : expr :=
-  (Select (Glob 56 [(Select (Pw 0 [(Pw 39 [Img])]) MaskE FalseC)]) MaskE Img).
+  (Select (Glob 55 [(Select (Pw 0 [(Pw 38 [Img])]) MaskE FalseC)]) MaskE Img).
 Example majority_ok : accepts prog_majority = true.
 Proof. vm_compute. reflexivity. Qed.
 Example majority_restores : restores_outside prog_majority = true.
@@ -254,7 +254,7 @@ Proof. vm_compute. reflexivity. Qed.
 
 (* remove:  Select (Glob table_lookup [Select (Pw copy [Pw astype [Img]]) (MaskE) (FalseC)]) (MaskE) (Img) *)
 Definition prog_remove : expr :=
-  (Select (Glob 56 [(Select (Pw 0 [(Pw 39 [Img])]) MaskE FalseC)]) MaskE Img).
+  (Select (Glob 55 [(Select (Pw 0 [(Pw 38 [Img])]) MaskE FalseC)]) MaskE Img).
 Example remove_ok : accepts prog_remove = true.
 Proof. vm_compute. reflexivity. Qed.
 Example remove_restores : restores_outside prog_remove = true.
@@ -262,7 +262,7 @@ Proof. vm_compute. reflexivity. Qed.
 
 (* spur:  Select (Select (Img) (Glob index_set [Glob spur_index_lookup_loop [Glob prepare_for_index_lookup [Select (Pw copy [Pw astype [Img]]) (MaskE) (FalseC)]]]) (Const<zeros>)) (MaskE) (Img) *)
 Definition prog_spur : expr :=
-  (Select (Select Img (Glob 57 [(Glob 58 [(Glob 59 [(Select (Pw 0 [(Pw 39 [Img])]) MaskE FalseC)])])]) (Const 3)) MaskE Img).
+  (Select (Select Img (Glob 56 [(Glob 57 [(Glob 58 [(Select (Pw 0 [(Pw 38 [Img])]) MaskE FalseC)])])]) (Const 3)) MaskE Img).
 Example spur_ok : accepts prog_spur = true.
 Proof. vm_compute. reflexivity. Qed.
 Example spur_restores : restores_outside prog_spur = true.
@@ -270,7 +270,7 @@ Proof. vm_compute. reflexivity. Qed.
 
 (* thicken:  Select (Glob table_lookup [Select (Pw copy [Pw astype [Img]]) (MaskE) (FalseC)]) (MaskE) (Img) *)
 Definition prog_thicken : expr :=
-  (Select (Glob 56 [(Select (Pw 0 [(Pw 39 [Img])]) MaskE FalseC)]) MaskE Img).
+  (Select (Glob 55 [(Select (Pw 0 [(Pw 38 [Img])]) MaskE FalseC)]) MaskE Img).
 Example thicken_ok : accepts prog_thicken = true.
 Proof. vm_compute. reflexivity. Qed.
 Example thicken_restores : restores_outside prog_thicken = true.
@@ -278,7 +278,7 @@ Proof. vm_compute. reflexivity. Qed.
 
 (* thin:  Select (Select (Img) (Glob index_set [Glob thin_index_lookup_loop [Glob prepare_for_index_lookup [Select (Pw copy [Img]) (MaskE) (FalseC)]]]) (Const<zeros>)) (MaskE) (Img) *)
 Definition prog_thin : expr :=
-  (Select (Select Img (Glob 57 [(Glob 60 [(Glob 59 [(Select (Pw 0 [Img]) MaskE FalseC)])])]) (Const 3)) MaskE Img).
+  (Select (Select Img (Glob 56 [(Glob 59 [(Glob 58 [(Select (Pw 0 [Img]) MaskE FalseC)])])]) (Const 3)) MaskE Img).
 Example thin_ok : accepts prog_thin = true.
 Proof. vm_compute. reflexivity. Qed.
 Example thin_restores : restores_outside prog_thin = true.
@@ -286,7 +286,7 @@ Proof. vm_compute. reflexivity. Qed.
 
 (* skeletonize:  Select (Pw astype [Glob skeletonize_core(edt,table_lookup,lexsort,skeletonize_loop) [Select (Pw copy [Pw astype [Img]]) (MaskE) (FalseC)]]) (MaskE) (Img) *)
 Definition prog_skeletonize : expr :=
-  (Select (Pw 39 [(Glob 61 [(Select (Pw 0 [(Pw 39 [Img])]) MaskE FalseC)])]) MaskE Img).
+  (Select (Pw 38 [(Glob 60 [(Select (Pw 0 [(Pw 38 [Img])]) MaskE FalseC)])]) MaskE Img).
 Example skeletonize_ok : accepts prog_skeletonize = true.
 Proof. vm_compute. reflexivity. Qed.
 Example skeletonize_restores : restores_outside prog_skeletonize = true.
